@@ -51,6 +51,11 @@ LONG_P = [0.0]                                # knob: probability that a text pa
 
 
 def _long_text(rng, stream=False):
+    if stream and rng.random() < 0.4:
+        # a log: many numbered lines (more than any sampling window a comparator might use), over the stream length
+        # limit (only for streams: nbdime compares texts character-wise, which is quadratic in 10k-character bundles)
+        n = rng.randint(33, 70)
+        return "".join("%-24s log #%d\n" % (rng.choice(VOCAB).strip("\r\n\0")[:24], i) for i in range(n))
     pre = LONG_STREAM_PREFIX if stream else LONG_PREFIX
     return pre + "".join(rng.choice(VOCAB) for _ in range(rng.randint(0, 3)))
 
@@ -250,6 +255,30 @@ def edit(rng, nb, n_edits=None, shapes=None, focus=None, kinds=None):
                         if m.startswith("text/") and isinstance(o["data"][m], str):
                             o["data"][m] = o["data"][m] + rng.choice(VOCAB)
                             break
+        elif k == "outlines":
+            # rewrite a share of the lines of a long many-line output (borderline similar), sometimes changing the count
+            cands = []
+            for c in cells:
+                for o in (c.get("outputs") or []) if c["cell_type"] == "code" else []:
+                    if o["output_type"] == "stream" and o["text"].count("\n") > 32:
+                        cands.append((o, "text"))
+                    for m in sorted(o.get("data") or {}):
+                        if m.startswith("text/") and isinstance(o["data"][m], str) and o["data"][m].count("\n") > 32:
+                            cands.append((o["data"], m))
+            if not cands:
+                cells[i]["source"] = _edit_lines(rng, cells[i]["source"])
+                continue
+            holder, key = rng.choice(cands)
+            ls = holder[key].splitlines(True)
+            share = rng.choice([0.1, 0.2, 0.3, 0.4, 0.5])
+            for j in rng.sample(range(len(ls)), max(1, int(len(ls) * share))):
+                ls[j] = "rewritten %d %s" % (rng.randint(0, 999), ls[j])
+            r = rng.random()
+            if r < 0.25:
+                del ls[rng.randrange(len(ls))]
+            elif r < 0.5:
+                ls.insert(rng.randrange(len(ls)), "an added line %d\n" % rng.randint(0, 999))
+            holder[key] = "".join(ls)
         elif k == "samelen":
             # a length-preserving edit (x = 1 -> x = 2): the file keeps its byte size
             src = cells[i]["source"]
